@@ -45,7 +45,7 @@ def decodeLeafD (tn s : String) : Except DErr D :=
     | none => .error .badValue
   else
     match kindOfTypeName tn with
-    | some k => .ok (.leaf k s)
+    | some k => .ok (.leaf k.canon s)
     | none => .error .unresolved
 
 mutual
@@ -168,7 +168,7 @@ def B64Ok : Prop := ∀ bs, unb64 (b64 bs) = some bs
 
 theorem typeName_codec (k : Kind) :
     k.typeName ≠ "Hash" ∧ k.typeName ≠ "Sensitive" ∧ k.typeName ≠ "Default" ∧ k.typeName ≠ "Binary" ∧
-      kindOfTypeName k.typeName = some k := by
+      kindOfTypeName k.typeName = some k.canon ∧ k.canon.canon = k.canon := by
   cases k <;> decide
 
 /-- a typed hash read back -/
@@ -227,10 +227,10 @@ theorem plain_trip (c : Cfg) (hb : B64Ok) : ∀ (v : V), Frag c v → Trip c v
         cases h : c.rich with
         | true => rfl
         | false => have := hf.2 h; simp [V.isData] at this
-      obtain ⟨h1, h2, h3, h4, h5⟩ := typeName_codec k
+      obtain ⟨h1, h2, h3, h4, h5, h6⟩ := typeName_codec k
       refine trip_scalar c _ (.hash [(.str "__ptype", .str k.typeName), (.str "__pvalue", .str enc)]) ?_ ?_ rfl (fun _ => rfl)
       · simp only [plain, hr, if_true]; exact typed_data _ _ (.str enc) (by simp [dataOf, scD])
-      · simp only [cnv, typed_lookup, typed_pvalue, if_neg h1, if_neg h2, if_neg h3, decodeLeafD, if_neg h4, h5, V.abs]
+      · simp only [cnv, typed_lookup, typed_pvalue, if_neg h1, if_neg h2, if_neg h3, decodeLeafD, if_neg h4, h5, h6, V.abs]
   | .bin id bs, hf => by
       cases hbin : c.bin with
       | true =>
